@@ -111,11 +111,19 @@ Inductive call :=
 
 Inductive log_item :=
 | LIo (c : call) (o : outcome)
-| LAck (w : N) (ok : bool).
+| LAck (w : N) (ok : bool)
+| LDown.                      (* the response to a Shutdown message has been sent *)
 
 Inductive sched_item :=
 | SWrite (w : N) (size : N)   (* the actor dequeues Write w; [size] = encoded entry size *)
-| SFlush.                     (* the actor runs flush_group_commit *)
+| SFlush                      (* the actor runs flush_group_commit (end of a batch) *)
+| SShutdown.                  (* the actor dequeues Shutdown: final flush_group_commit (the
+                                 pending acks get the RESULT of that fsync), then the
+                                 response.  Whether the loop then ends (Shutdown taken by
+                                 the first recv or by the try_recv drain) or goes on
+                                 (taken inside the group-commit wait window, where `return`
+                                 only leaves the inner future) is the schedule's business:
+                                 in the first case no item follows. *)
 
 (* ---------------------------------------------------------------- rotator and actor *)
 
@@ -282,11 +290,21 @@ Definition flush (st : state) : state :=
       end
   end.
 
+Definition log_down (st : state) : state :=
+  State (s_store st) (s_cur st) (s_seq st) (s_force st) (s_pending st) (s_since st) (s_ok st) (s_err st)
+        (LDown :: s_log st) (s_io st) (s_halt st) (s_over st) (s_panic st).
+
+(* handle_message_always, arm Shutdown *)
+Definition shutdown (st : state) : state :=
+  let st := flush st in
+  if s_halt st then st else log_down st.
+
 Definition step (cfg : config) (st : state) (ev : sched_item) : state :=
   if s_halt st then st else
   match ev with
   | SWrite w size => handle_write cfg st w size
   | SFlush => flush st
+  | SShutdown => shutdown st
   end.
 
 Definition run (cfg : config) (sched : list sched_item) (io : list outcome) : state :=
